@@ -61,8 +61,9 @@ func (p *c10Proto) DoClose(ctx context.Context)         {}
 
 func VerifC10HandleConn() {
 	oneway := vapi.Bool("oneway")
-	ht := time.Duration(vapi.Choice("handletimeout", 2)) * 5 * time.Millisecond // 0 or 5ms
-	dur := time.Duration(vapi.Choice("dur", 3)) * 4 * time.Millisecond          // 0, 4, 8 ms
+	// wide margins so that the native replay (real time) follows the same branch
+	ht := time.Duration(vapi.Choice("handletimeout", 2)) * 100 * time.Millisecond // 0 or 100 ms
+	dur := []time.Duration{0, 20 * time.Millisecond, 300 * time.Millisecond}[vapi.Choice("dur", 3)]
 	pool := vapi.Choice("pool", 2)
 	proto := &c10Proto{oneway: oneway, dur: dur}
 	cfg := &TarsServerConf{Proto: "tcp", Address: "10.0.0.2:1", HandleTimeout: ht, MaxInvoke: int32(pool), QueueCap: 1}
@@ -75,7 +76,7 @@ func VerifC10HandleConn() {
 	ci := &connInfo{conn: conn}
 	h.handleConn(ci, []byte{0, 0, 0, 5, 'R'})
 	// let handler, timeout and late completion all finish (virtual time)
-	time.Sleep(50 * time.Millisecond)
+	time.Sleep(600 * time.Millisecond)
 	vapi.Quiesce()
 	if oneway {
 		vapi.Check(len(conn.writes) == 0, "a one-way request produces no reply")
